@@ -61,6 +61,7 @@ type Conn struct {
 	// full: a Write blocks until its deadline, a local Close or a reset
 	WriteBlocked bool
 	EOFSeen      bool // a Read was answered with the end of the stream
+	graceWrites  int  // writes still accepted after the peer closed (kind 1)
 }
 
 // WirePkt is a complete client packet on the wire.
@@ -324,6 +325,11 @@ func (c *Conn) Break(kind int) {
 		// half-close: the peer has sent FIN and takes nothing more
 		c.WriteBlocked = true
 	}
+	if kind == 1 {
+		// after the peer's FIN the kernel still accepts a write or two
+		// before the reset comes back; those bytes go nowhere
+		c.graceWrites = c.w.Tape.Draw("fin-grace", 3)
+	}
 	c.w.Ev("break", c.id, "conn%d broken kind=%d", c.id, kind)
 }
 
@@ -433,6 +439,15 @@ func (s *Sim) writeAction(p *park) Action {
 	w := s.W
 	return Action{Name: "write", Weight: 10, p: p, Run: func() {
 		o := w.X.(netOptser).Net()
+		if c.Broken == 1 && c.graceWrites > 0 {
+			c.graceWrites--
+			c.credit(op.p)
+			op.n = len(op.p)
+			w.Probe("write_accepted_after_fin")
+			w.Ev("write", c.id, "%s conn%d %d bytes accepted after the peer's FIN (lost)", p.g, c.id, op.n)
+			s.unpark(p)
+			return
+		}
 		if c.Broken != 0 {
 			op.err = c.errBroken("write")
 			w.Ev("write", c.id, "%s conn%d -> %v", p.g, c.id, op.err)
